@@ -35,9 +35,9 @@ func r101FieldNumbers(c *an.Ctx) {
 	if f == nil {
 		return
 	}
-	info := f.Pkg.TypesInfo
 	n := 0
-	ast.Inspect(f.Decl.Body, func(nd ast.Node) bool {
+	c.InspectAll(f, func(hf *an.Func, nd ast.Node) bool { // protoBufMessageDef and the helpers extracted from it
+		info := hf.Pkg.TypesInfo
 		rs, ok := nd.(*ast.RangeStmt)
 		if !ok || rs.Value == nil {
 			return true
@@ -253,6 +253,9 @@ func r103Handlers(c *an.Ctx) {
 				if !svc && (len(p.Ret) != 2 || !strings.HasPrefix(p.Ret[1], "google.golang.org/grpc/status.Error(3, ")) {
 					probs = append(probs, "a decoding failure that is not a service error is not reported as InvalidArgument")
 				}
+				if svc && (len(p.Ret) != 2 || !strings.HasPrefix(p.Ret[1], "dyn:p0.decoder(") || !strings.HasSuffix(p.Ret[1], ")#1")) {
+					probs = append(probs, "a service error returned by the request decoder (a validation error) is not returned as it is: the generated error encoder can no longer map it to its response: "+strings.Join(p.Ret, ","))
+				}
 			}
 		}
 		if calledEndpoint == 0 {
@@ -273,6 +276,22 @@ func r103Handlers(c *an.Ctx) {
 			}
 			if known && !decOK && len(p.Ret) == 2 && p.Ret[1] == "nil" {
 				probs = append(probs, "a decoding failure is reported as success")
+			}
+			// the same two rows as the unary handler: a service error travels as it is, anything else becomes
+			// InvalidArgument
+			if known && !decOK && len(p.Ret) == 2 {
+				svc, sk := false, false
+				for k, v := range e {
+					if strings.HasPrefix(k, "errors.As(dyn:p0.decoder(") {
+						svc, sk = v, true
+					}
+				}
+				switch {
+				case sk && svc && !(strings.HasPrefix(p.Ret[1], "dyn:p0.decoder(") && strings.HasSuffix(p.Ret[1], ")#1")):
+					probs = append(probs, "a service error returned by the request decoder is not returned as it is (the unary handler returns it unchanged): "+p.Ret[1])
+				case sk && !svc && !strings.HasPrefix(p.Ret[1], "google.golang.org/grpc/status.Error(3, "):
+					probs = append(probs, "a decoding failure that is not a service error is not reported as InvalidArgument: "+p.Ret[1])
+				}
 			}
 			if known && decOK && (len(p.Ret) != 2 || !strings.HasSuffix(p.Ret[0], ")#0") || p.Ret[1] != "nil") {
 				probs = append(probs, "a successful decode does not return the decoded request")
